@@ -11,7 +11,7 @@ ASSUMPTIONS = ["caller-supplied read callbacks fill the buffer unless at end of 
                "short reads are explored only in the scan phase, where the code tolerates them",
                "for corpus archives the members are those of a reference run over a seekable file (the property is relative)",
                "TLC/SANY/CommunityModules trusted"]
-KINDS = ["path", "FILE", "pipe", "cb", "cbns"]
+KINDS = ["path", "FILE", "pipe", "drip", "cb", "cbns"]
 SIGS = [b"-lh", b"-lz", b"-pm"]
 
 
